@@ -376,3 +376,35 @@ Proof.
       cbn [bptr bsize nb] in Hdisj. lia.
     + cbn [o_res snd fst]. intros _ Hsame. apply Hsame.
 Qed.
+
+(* ---------------------------------------------------------------- C13: growing the newest block in place *)
+(* upwards, the newest block (the one that ends at the bump position) whose address satisfies the
+   new alignment grows where it is whenever the chunk has room: same address, no copy, no request *)
+Theorem grow_newest_in_place_up c s ptr osize oalign nsize nalign r ch :
+  up c = true -> is_last c s ptr osize = true -> divides nalign ptr = true ->
+  cur_chunk s = Some ch -> nsize <= content_end c ch - ptr ->
+  raw_grow c s ptr osize oalign nsize nalign r =
+    (set_cur_pos s (up_alignZ (ptr + nsize) (malign s)), inl (mkRO ptr nsize false)).
+Proof.
+  intros Hup Hl Hd Hc Hfit. unfold raw_grow. rewrite Hup, Hl, Hd, Hc. cbn [andb].
+  destruct (Z.leb_spec nsize (content_end c ch - ptr)); [reflexivity|lia].
+Qed.
+
+Corollary grow_newest_in_place_up_step c s0 h ws b nsize nalign zeroed r blk ch :
+  up c = true -> find_block (tick s0) b = Some blk -> is_top (tick s0) h = true ->
+  is_last c (tick s0) (bptr blk) (bsize blk) = true -> divides nalign (bptr blk) = true ->
+  cur_chunk (tick s0) = Some ch -> nsize <= content_end c ch - bptr blk ->
+  exists id, o_res (snd (step c s0 (OGrow h ws b nsize nalign zeroed) r)) = RBlock id (bptr blk) nsize /\
+             o_events (snd (step c s0 (OGrow h ws b nsize nalign zeroed) r)) = [].
+Proof.
+  intros Hup Hf Ht Hl Hd Hc Hfit. cbn [step]. set (s := tick s0) in *. rewrite Hf, Ht. cbn [negb].
+  rewrite (grow_newest_in_place_up c s _ _ _ _ _ r ch Hup Hl Hd Hc Hfit). cbn [ro_ptr ro_size ro_ub].
+  set (s1 := set_cur_pos s (up_alignZ (bptr blk + nsize) (malign s))).
+  set (s2 := if zeroed then zero_fill s1 (bptr blk + bsize blk) (nsize - bsize blk) else s1).
+  unfold add_block. cbn [snd o_res o_events]. eexists. split; [reflexivity|].
+  unfold new_events. cbn [ledger bump_id upd_live remove_block].
+  assert (El : ledger s2 = ledger s).
+  { unfold s2, s1. destruct zeroed; cbn [ledger zero_fill upd_mem];
+      unfold set_cur_pos; destruct (cur s) as [k| |]; try reflexivity; destruct (nth_error (chunks s) k); reflexivity. }
+  rewrite El, Nat.sub_diag. reflexivity.
+Qed.
